@@ -719,6 +719,24 @@ def probes(seed):
                     "equal-inputs-give-identical-results", got == want)
     except Exception as e:
         rec("Determinism", "apply_noise_scaling source dataset", "no-exception-in-determinism-probe", False, note=f"{type(e).__name__}: {str(e)[:80]}")
+    # error paths: a query that raises (and is handled by the caller) leaves the objects it was built from as they were
+    try:
+        objs_e, b_e = InversionScn().build()
+        mapper_e = [o for t, o in objs_e if t == "Mapper"][0]
+        want_mm = canon(np.array(mapper_e.mapping_matrix))
+        pm = np.array([k % 3 == 0 for k in range(mapper_e.params)])
+        for label, bad_values in (("values of the wrong length", np.arange(mapper_e.params + 5, dtype=float)), ("values as a python list", [1.0] * mapper_e.params)):
+            for qname in ("mapped_reconstructed_image_from", "magnification_via_mesh_from", "magnification_via_interpolation_from"):
+                mv_e = aa.MapperValued(mapper=mapper_e, values=bad_values, mesh_pixel_mask=pm.copy())
+                raised = False
+                try:
+                    getattr(mv_e, qname)()
+                except Exception:  # noqa: BLE001
+                    raised = True
+                rec("Determinism", f"MapperValued.{qname} with {label} ({'raised' if raised else 'answered'}): the mapper's mapping_matrix afterwards",
+                    "equal-inputs-give-identical-results", canon(np.array(mapper_e.mapping_matrix)) == want_mm)
+    except Exception as e:
+        rec("Determinism", "error paths of MapperValued", "no-exception-in-determinism-probe", False, note=f"{type(e).__name__}: {str(e)[:80]}")
     # factories return independent objects: scribbling on what a first call returned (the caller's own object) must not
     # change what an identical second call returns
     fmask = aa.Mask2D(mask=mk.copy(), pixel_scales=(1.0, 0.5), origin=(0.5, -1.0))
